@@ -13,6 +13,7 @@ FUNCTIONS = ['ProgramData.load_commandline_flags (argv loop, option dispatch, re
 ALPHA4 = '-=.,+ _0134Oofdthnasx'
 
 QUICK = {
+    'C19/argv/option_level': [dict(env={}, timeout=200, label='-O<level>, level -40..40, before/after the file name')],
     'C19/argv/option_token': [dict(env={'XH_N': 3}, parts=4, timeout=600, region_env={'XH_N': 4},
                                    label='one option token <=3 chars (code points < 128) before/after the file name')],
     'C19/argv/option_value': [dict(env={'XH_N': 1}, timeout=300, region_env={'XH_N': 3},
@@ -23,6 +24,7 @@ QUICK = {
                                     label='same 29 options, file name first / between / last')],
 }
 THOROUGH = {
+    'C19/argv/option_level': [dict(env={}, timeout=200, label='-O<level>, level -40..40, before/after the file name')],
     'C19/argv/option_token': [dict(env={'XH_N': 3}, parts=4, timeout=600, region_env={'XH_N': 4},
                                    label='one option token <=3 chars (code points < 128) before/after the file name'),
                               dict(env={'XH_N': 4, 'XH_ALPHA': ALPHA4}, parts=16, timeout=900,
